@@ -348,10 +348,26 @@ func (p *Parser) parseSpecs(specs []srcInput, listener *TreeShapeListener) (*sys
 		verifAfterWalk(listener, src.filename)
 	}
 
+	if err := p.finishModule(listener); err != nil {
+		return nil, err
+	}
+	return listener.module, nil
+}
+
+// finishModule lints and post-processes the module once every file has been walked.
+// These passes index and assert on shapes the grammar accepts (a REST-style call to a
+// simple endpoint, a nested transform without a type ...): like a panic of the parser or of
+// the listener, a panic here is reported as a parse error instead of taking the process down.
+func (p *Parser) finishModule(listener *TreeShapeListener) (err error) {
+	defer func() {
+		if r := recover(); r != nil {
+			err = syslutil.Exitf(ParseError, fmt.Sprintf("the specification cannot be processed: %v\n", r))
+		}
+	}()
 	listener.lintAppDefs()
 	listener.lintEndpoint()
 	p.postProcess(listener.module)
-	return listener.module, nil
+	return nil
 }
 
 // Takes a starting file and flattens all the imports that were already retrieved into an ordered list (recursively)
